@@ -16,7 +16,8 @@ type minfo struct {
 	locks    bool     // takes fd.mu.Lock() (with a deferred Unlock)
 	unlocked []string // shared fields accessed while the function itself does not hold the lock
 	locked   []string // shared fields accessed after the function took the lock
-	calls    []string // client methods / package functions (receiving the client) it calls
+	calls    []string // client methods / package functions (receiving the client) it calls (a locking function: after it took the lock)
+	pre      []string // the same, called by a locking function before it takes the lock
 	public   bool
 }
 
@@ -160,10 +161,26 @@ func lockSummary(dir string) []minfo {
 				id, ok := mu.X.(*ast.Ident)
 				return ok && cvars[id.Name]
 			}
+			pending := []string{}
+			addCall := func(name string) {
+				if m.locks {
+					add(&m.calls, name)
+				} else {
+					add(&pending, name)
+				}
+			}
+			topLevel := map[ast.Stmt]bool{}
+			for _, st := range fd.Body.List {
+				topLevel[st] = true
+			}
 			ast.Inspect(fd.Body, func(n ast.Node) bool {
 				switch x := n.(type) {
 				case *ast.ExprStmt:
 					if isMu(x.X, "Lock") {
+						// source order is execution order only for a statement of the function body itself
+						if !topLevel[x] {
+							die("%s: %s takes the mutex inside a nested block", dir, m.name)
+						}
 						m.locks = true
 						return false
 					}
@@ -186,20 +203,25 @@ func lockSummary(dir string) []minfo {
 					if sel, ok := x.Fun.(*ast.SelectorExpr); ok {
 						if id, ok := sel.X.(*ast.Ident); ok && cvars[id.Name] && (methods[sel.Sel.Name] || !fields[sel.Sel.Name] && sel.Sel.Name != "mu") {
 							if methods[sel.Sel.Name] || ast.IsExported(sel.Sel.Name) {
-								add(&m.calls, sel.Sel.Name)
+								addCall(sel.Sel.Name)
 							}
 						}
 					}
 					if id, ok := x.Fun.(*ast.Ident); ok && funcs[id.Name] {
 						for _, a := range x.Args {
 							if aid, ok := a.(*ast.Ident); ok && cvars[aid.Name] {
-								add(&m.calls, id.Name)
+								addCall(id.Name)
 							}
 						}
 					}
 				}
 				return true
 			})
+			if m.locks {
+				m.pre = pending
+			} else {
+				m.calls = append(m.calls, pending...)
+			}
 			if m.locks && !hasDefer {
 				die("%s: %s locks the mutex without a deferred Unlock", dir, m.name)
 			}
@@ -215,7 +237,7 @@ func writeLocks(repo, out string) {
 	b.WriteString("(* GENERATED by /verif/translator from the Go sources; do not edit. *)\n")
 	b.WriteString("From Coq Require Import List.\nFrom Coq Require Import Strings.Byte Strings.String.\n")
 	b.WriteString("From Minidyn Require Import Base.Str.\nImport ListNotations.\n\n")
-	b.WriteString("Record minfo := { m_name : str; m_public : bool; m_locks : bool; m_unlocked : list str; m_locked : list str; m_calls : list str }.\n\n")
+	b.WriteString("Record minfo := { m_name : str; m_public : bool; m_locks : bool; m_unlocked : list str; m_locked : list str; m_pre : list str; m_calls : list str }.\n\n")
 	strs := func(l []string) string {
 		x := []string{}
 		for _, s := range l {
@@ -227,8 +249,8 @@ func writeLocks(repo, out string) {
 		ms := lockSummary(filepath.Join(repo, "aws-"+v, "client"))
 		items := []string{}
 		for _, m := range ms {
-			items = append(items, fmt.Sprintf("{| m_name := %s; m_public := %v; m_locks := %v; m_unlocked := %s; m_locked := %s; m_calls := %s |}",
-				coqStr(m.name), m.public, m.locks, strs(m.unlocked), strs(m.locked), strs(m.calls)))
+			items = append(items, fmt.Sprintf("{| m_name := %s; m_public := %v; m_locks := %v; m_unlocked := %s; m_locked := %s; m_pre := %s; m_calls := %s |}",
+				coqStr(m.name), m.public, m.locks, strs(m.unlocked), strs(m.locked), strs(m.pre), strs(m.calls)))
 		}
 		fmt.Fprintf(&b, "Definition lock_table_%s : list minfo :=\n  [%s].\n\n", v, strings.Join(items, ";\n   "))
 	}
